@@ -55,6 +55,35 @@ Theorem C18_all_heads : forall (g : graph), wf g ->
   forall x, In x (all_heads_pos g) <-> x < length g /\ forall y, ~ In x (parents g y).
 Proof. exact all_heads_thm. Qed.
 
+(** The segment stack is the flat index the theorems above talk about: lookups by position
+    and by id search the stack newest-first and hit exactly the flat entry; add_commit_data
+    appends one entry whose parents are existing smaller positions (so [wf] is an invariant);
+    squashing segments re-adds their entries in order and changes nothing in the flat index. *)
+Theorem C18_abs_flat :
+  (forall st pos, entry_by_pos st pos = nth_error (flat st) pos) /\
+  (forall st id p, commit_id_to_pos st id = Some p ->
+     p < length (flat st) /\ exists ps, nth_error (flat st) p = Some (id, ps)) /\
+  (forall st id, commit_id_to_pos st id = None -> forall e, In e (flat st) -> fst e <> id) /\
+  (forall st id pids st', add_commit_data st id pids = Some st' ->
+     (flat st' = flat st /\ commit_id_to_pos st id <> None) \/
+     (exists ps, flat st' = flat st ++ [(id, ps)] /\ (forall p, In p ps -> p < length (flat st)) /\
+                 map (commit_id_to_pos st) pids = map Some ps)) /\
+  (forall st id pids st', wf (flat_graph st) -> add_commit_data st id pids = Some st' ->
+     wf (flat_graph st')) /\
+  (forall files top, flat (squash_segs top files) = flat (top :: files) /\
+     map (@length sentry) (squash_segs top files) =
+     squash_sizes (length top) (map (@length sentry) files)).
+Proof. exact abs_flat_thm. Qed.
+
+(** maybe_squash_with_ancestors on segment sizes: no commit is lost, the newest written
+    segment has fewer than half the commits of the one below it, and an observed transaction
+    that the size model reproduces satisfies the checker's statement. *)
+Theorem C18_squash :
+  (forall files n, list_sum (squash_sizes n files) = n + list_sum files) /\
+  (forall files n x y r, squash_sizes n files = x :: y :: r -> 2 * x < y) /\
+  (forall o, level_corr o = true -> level_ok o = true).
+Proof. exact squash_thm. Qed.
+
 (** The checker run on the implementation's recorded answers: acceptance means the answer
     satisfies the declarative graph statement ... *)
 Theorem C18_checker_sound : forall (g : graph) (q : query), wf g ->
@@ -90,7 +119,9 @@ Example C18_nonvacuous :
   /\ is_ancestor_pos g 2 5 = Some true /\ is_ancestor_pos g 3 6 = Some false
   /\ heads g [1; 5; 3; 6; 1] = Some [6; 5]
   /\ gens g = [0; 1; 1; 2; 2; 3; 3; 4]
-  /\ all_heads_pos g = [7].
+  /\ all_heads_pos g = [7]
+  /\ saved_levels 3 [4; 20] = [7; 20] /\ saved_levels 1 [4; 20] = [1; 4; 20]
+  /\ saved_levels 0 [4; 20] = [4; 20].
 Proof. vm_compute. repeat split. Qed.
 
 Print Assumptions C18_is_ancestor.
